@@ -57,7 +57,7 @@ ValueOK(ev, syn) ==
 \* grammar rejects gets a tree, everything it accepts does
 AstOK(ev, syn) ==
   /\ syn.v = "reject" => "ast" \notin DOMAIN ev
-  /\ syn.v = "accept" => ("ast" \in DOMAIN ev /\ ev.ast = Shape(syn.tree, syn.toks))
+  /\ syn.v = "accept" => ("ast" \in DOMAIN ev /\ ev.ast = Flat(Shape(syn.tree, syn.toks)))
 
 PureOK(ev) == ("kid" \in DOMAIN ev /\ ev.kid \in DOMAIN seen) =>
                  /\ seen[ev.kid].canon = ev.canon
@@ -67,7 +67,7 @@ Diag(ev) ==
   LET syn == Syntax(ev.e, ev.chars) IN
   [failed |-> TLCGet(7),      \* the conjunct of EventOK that was being evaluated when the event was refused
    claim |-> ClaimOK(ev, syn), status |-> StatusOK(ev, syn), ticks |-> TicksOK(ev) /\ StepsOK(ev, syn), ast |-> AstOK(ev, syn),
-   shape |-> IF syn.v = "accept" THEN Shape(syn.tree, syn.toks) ELSE <<>>,
+   shape |-> IF syn.v = "accept" THEN Flat(Shape(syn.tree, syn.toks)) ELSE <<>>,
    parse_steps |-> IF LexOk(syn.toks) THEN ParseSt(KindsOf(syn.toks)).st ELSE -1,
    eval_nodes |-> IF syn.v = "accept" THEN EvalNodes(syn.tree) ELSE -1, value |-> ValueOK(ev, syn), pure |-> TLCGet(7) # "pure",
    verdict |-> syn.v, rule |-> syn.rule, kinds |-> KindsOf(syn.toks), expected |-> Value(ev.e, syn, PhOf(ev))]
